@@ -1131,8 +1131,10 @@ class KullbackLeibler(Functional):
                 xlogy = scipy.special.xlogy(self.prior, self.prior / x)
                 res = (x - self.prior + xlogy).inner(self.domain.one())
 
-        if not np.isfinite(res):
+        if not np.isfinite(res) or np.any(np.less(x, 0)):
             # In this case, some element was less than or equal to zero
+            # (where the prior is zero, `xlogy` is zero for any `x`, hence
+            # negative entries need to be checked for explicitly)
             return np.inf
         else:
             return res
